@@ -169,6 +169,10 @@ def run(ctx):
         ctx.undecided("C07-census", "floor", "the census found only %d sites (%s); the pinned tree has >= 90 with >= 40 unwrap-family calls" % (len(all_sites), by_kind))
 
     # ------------------------------------------------------------------ C07-main (bin)
+    ctx.rule("C07-reader-probes", "boundary and malformed literals of every token class are tokenised, into tokens or a reported error, "
+                                  "without the abstract run of the lexer reaching a panic")
+    from . import lexrun as _lr
+    _lr.probe_rule(ctx, "C07-reader-probes")
     ctx.rule("C07-main", "front-end I/O unwraps in main are the only panic sites of the binary")
     mainf = fb.find("main", crate="bin")
     n = 0
